@@ -352,6 +352,10 @@ def run(repo, chk):
     chk.ob("R01.7", "visit_Assign:starred-element-as-sole-target", not starred_sole, "ptera/transform.py (visit_Assign._decompose)",
            "`a, *b = x` is decomposed into one assignment per element; the element `*b` becomes the only target of `*b = t[1]`, which compile() rejects (SyntaxError at activation)")
 
+    # the globals snapshot read at entry is faithful (documented exception: rebinding during the call)
+    from .shared import dictpile_obligations
+    dictpile_obligations(repo, chk, "R01.3")
+
     # ------------------------------------------------------------------ R01.8
     tr = repo.func("transform.transform")
     copies = [norm(n)[:90] for n in walk_local(tr.node) if isinstance(n, ast.Attribute) and n.attr == "cell_contents"]
